@@ -118,8 +118,10 @@ class Recorder:
 
 def merge(results):
     out = dict(counts=Counter(), nontrivial=set(), samples={}, known_hits=Counter(), violations=[], evaluations=0,
-               exhaustive=None)
+               exhaustive=None, aux=[])
     for r in results:
+        if r.get('aux') is not None:
+            out['aux'].append(r['aux'])
         out['counts'].update(r['counts'])
         out['nontrivial'].update(r['nontrivial'])
         out['known_hits'].update(r['known_hits'])
